@@ -59,7 +59,7 @@ def main():
         shutil.copy(demo, destp)
         rc_with, out_with = sh(cmd, wt)
         # remove the patch, keep the demo
-        sh("git stash -q -- $(git diff --name-only)", wt)
+        sh("git checkout -- $(git diff --name-only)", wt)  # never git stash: the stash is shared by all worktrees
         rc_without, out_without = sh(cmd, wt)
         print("demo with patch: exit %d | without: exit %d" % (rc_with, rc_without))
         if rc_with == 0 or rc_without != 0:
